@@ -61,6 +61,8 @@ def handle (st : DState) (line : String) : DState × String :=
   | "prob" :: args => (st, cmdProb args)
   | "pval" :: args => (st, cmdPval args)
   | "pv" :: args => (st, cmdPv args)
+  | "kw" :: args => (st, cmdKwargs args)
+  | "heap" :: args => (st, HeapScenario.run args)
   | "cfg" :: args => (st, cmdCfg args)
   | "dl" :: args => (st, cmdDownload args)
   | "dh" :: args => (st, cmdDatasetHist args)
